@@ -105,7 +105,9 @@ func (self ValueRange) iterReset() {
 }
 
 func (self ValueRange) IntoIter() func() (Value, bool) {
-	return self.iterNext
+	// Every loop owns its cursor: a loop which is left early must not leave its position behind for the next one.
+	start := (*self.Start).(ValueInt).Inner
+	return ValueRange{Start: self.Start, End: self.End, EndIsInclusive: self.EndIsInclusive, IterCurrent: &start}.iterNext
 }
 
 func NewValueRange(start Value, end Value, endIsInclusive bool) *Value {
